@@ -36,10 +36,10 @@ def reach_globals(ex, p):
     return seen
 
 
-def analyse(base, chk, fname):
-    r = sweep.run_api(base, chk, fname, log_reads=True)
+def analyse(base, chk, fname, variant="distinct"):
+    r = sweep.run_api(base, chk, fname, log_reads=True, variant=variant)
     ex = r.ex
-    label = fname.replace("filippo.io/edwards25519", "ed")
+    label = fname.replace("filippo.io/edwards25519", "ed") + (" [one object passed for all same-typed arguments / slice elements]" if variant == "shared" else "")
     chk.used(base.prog, fname, "effects (" + r.desc + ")")
     recv = r.args[0] if r.args and isinstance(r.args[0], X.Ptr) and base.prog.fn(fname)["hasrecv"] else None
     argobjs = set()
@@ -179,6 +179,7 @@ def run(chk):
     chk.assumptions = ["effects come from executing the real function bodies; data callees are abstracted (ring/group/scalar modes), which does not change which objects are written"]
     chk.add(Ob("API surface: %d exported operations enumerated from SSA, all have a harness" % len(fns), "unsat", 0, [], "API surface"))
     items = [(fn, lambda fn=fn: analyse(base, chk, fn)) for fn in fns]
+    items += [(fn + " shared", lambda fn=fn: analyse(base, chk, fn, "shared")) for fn in fns if sweep.shared_applicable(prog, fn)]
     # heavy ones first
     items.sort(key=lambda it: 0 if "VarTime" in it[0] else 1)
     items += [("twice ScalarBaseMult", lambda: twice(base, chk, "ScalarBaseMult"))]
